@@ -709,6 +709,9 @@ def case_base64(r, plan):
 
 def case_compress(r, plan):
     b, kind = rand_bytes(r, plan["max_bytes"])
+    if r.random() < 0.012:
+        # a gzip stream longer than the usual 32 KiB I/O buffers (incompressible input), in every tier
+        b, kind = r.randbytes(r.choice([33000, 40000, 66000, 100000])), "random-big"
     gz = gzip.compress(b, compresslevel=r.choice([0, 1, 6, 9]), mtime=r.choice([0, 1, 1700000000]))
     text = "(\\x -> [compress(x), decompress(compress(x)), decompress(%s)])(%s)" % (nbytes(gz), nbytes(b))
 
